@@ -342,6 +342,8 @@ pub fn genblock(b: &SparseMatOpt) -> Block {
     let mut y = Block::new(b.ny);
     loop {
         y.try_fill(&mut rng).unwrap();
+        #[cfg(yamaquasi_verif)]
+        verif_hooks_small::record_genblock(&y);
         let ay: Block = mul_aab_opt(b, &y);
         let bay = b * &ay;
         let gram: SmallMat = &bay * &bay;
@@ -1094,5 +1096,64 @@ pub mod verif_hooks {
 
     pub fn smallmat_rank_reverse(m: &SmallMat) -> (usize, Lane) {
         m.rank_reverse()
+    }
+}
+
+// Verification hooks for the 64x64 core and `genblock` (add-only; compiled only with `--cfg yamaquasi_verif`).
+#[cfg(yamaquasi_verif)]
+pub mod verif_hooks_small {
+    use super::*;
+    use std::cell::RefCell;
+
+    thread_local! {
+        // (blocks drawn by `genblock` since the last `genblock_start`, limit; 0 = no limit)
+        static GENBLOCK: RefCell<(Vec<Vec<Lane>>, usize)> = RefCell::new((vec![], 0));
+    }
+
+    /// Forget the recorded blocks; with `limit > 0` the observer panics when `genblock` draws
+    /// block number `limit + 1` (the harness catches it: `limit` blocks were drawn and refused).
+    pub fn genblock_start(limit: usize) {
+        GENBLOCK.with(|c| *c.borrow_mut() = (vec![], limit));
+    }
+
+    /// Called by `genblock` after every `try_fill`.
+    pub fn record_genblock(y: &Block) {
+        let stop = GENBLOCK.with(|c| {
+            let mut g = c.borrow_mut();
+            if g.1 > 0 && g.0.len() >= g.1 {
+                true
+            } else {
+                g.0.push(y.0.clone());
+                false
+            }
+        });
+        if stop {
+            panic!("verif: genblock limit reached");
+        }
+    }
+
+    /// The blocks drawn since the last `genblock_start` (and reset, limit removed).
+    pub fn genblock_take() -> Vec<Vec<Lane>> {
+        GENBLOCK.with(|c| std::mem::replace(&mut *c.borrow_mut(), (vec![], 0)).0)
+    }
+
+    pub fn lane_lz(w: Lane) -> usize {
+        lz(w)
+    }
+
+    pub fn lane_reverse(w: Lane) -> Lane {
+        reverse_lane(w)
+    }
+
+    pub fn smallmat_identity() -> SmallMat {
+        SmallMat::identity()
+    }
+
+    pub fn smallmat_symmetric(m: &SmallMat) -> bool {
+        m.symmetric()
+    }
+
+    pub fn smallmat_reverse(m: &SmallMat) -> SmallMat {
+        m.reverse()
     }
 }
